@@ -193,7 +193,7 @@ package server
 // only for an OPEN that ValidateOpenMsg accepts, otherwise Idle together with a NOTIFICATION
 //@ func newfsmStateReason
 //@   modifies nothing
-//@   ensures result != nil && fresh(result)
+//@   ensures result != nil && fresh(result) && result.Type == typ
 //@ func (*fsm).handleOpen
 //@   requires fsm != nil && fmsg != nil
 //@   claims post panic
